@@ -17,7 +17,8 @@ from mc.gen import elements as E
 from mc.gen import values as VAL
 from mc.ref import draft6 as R
 
-from statham.schema.elements import Element, Integer, String
+from statham.schema.elements import AnyOf, Array, Element, Integer, Null, Object, String
+from statham.schema.property import Property
 from statham.schema.elements.meta import ObjectMeta
 from statham.schema.parser import parse
 from statham.serializers import serialize_json
@@ -60,7 +61,21 @@ def refs_resolve(doc):
     return bad
 
 
-def definition_menu(tree_factory):
+def _foreign():
+    return Object.inline("C03Foreign", properties={"x": Property(String(), required=True)})
+
+
+def _foreign_outer():
+    return Object.inline("C03ForeignOuter", properties={"inner": Property(_foreign())})
+
+
+EXTRA_TREES = [
+    ("Element(enum=[])", lambda: Element(enum=[])),
+    ("Array(Element(enum=[]))", lambda: Array(Element(enum=[], default=1))),
+]
+
+
+def definition_menu(tree_factory, rich=True):
     """List of (label, builder(tree) -> (elements tuple, definitions dict or None))."""
     menu = [("none", lambda t: ((t,), None))]
     t0 = tree_factory()
@@ -89,6 +104,10 @@ def definition_menu(tree_factory):
         # an equal-but-not-identical copy, built from a second fresh tree
         menu.append(("equal-copy", lambda t: ((t,), {"copy": nth_sub(tree_factory(), 0)})))
     menu.append(("unrelated", lambda t: ((t,), {"unrel": String(minLength=99), "unrel2": Integer(const=True)})))
+    # a class that is reachable only through the caller-supplied definitions
+    menu.append(("foreign-class", lambda t: ((t,), {"foreign": Array(_foreign())})))
+    if rich:
+        menu.append(("foreign-class-nested", lambda t: ((t,), {"foreign": Element(properties={"p": Property(AnyOf(_foreign_outer(), Null()))})})))
     if classes:
         def cls_def(t):
             cs = [c for c in get_children(t) if isinstance(c, ObjectMeta)]
@@ -179,7 +198,7 @@ def parsed_factory(schema):
 
 
 def plan(tier, seed):
-    trees = E.all_trees(1 if tier == "quick" else 2)
+    trees = E.all_trees(1 if tier == "quick" else 2) + EXTRA_TREES
     n = len(trees)
     chunk = 8
     items = [("dsl", lo, min(n, lo + chunk)) for lo in range(0, n, chunk)]
@@ -197,7 +216,7 @@ _SEED = [0]
 def work(item):
     st = runner.Stats()
     if item[0] == "dsl":
-        trees = E.all_trees(1 if _TIER[0] == "quick" else 2)
+        trees = E.all_trees(1 if _TIER[0] == "quick" else 2) + EXTRA_TREES
         values = VAL.V + VAL.V_OBJ
         for label, factory in trees[item[1]:item[2]]:
             judge(st, label, factory, values, 0)
@@ -214,7 +233,7 @@ def work(item):
                 continue
             full = item[1][0] in ("d1", "objcore") or (_TIER[0] == "thorough" and item[1][0] in ("d2", "wrap1"))
             if full:
-                menu = None
+                menu = definition_menu(f, rich=False)
             else:
                 m = definition_menu(f)
                 pick = 1 + (lattice._h(sid, _SEED[0]) % (len(m) - 1)) if len(m) > 1 else 0
@@ -229,7 +248,7 @@ def work(item):
 def replay(case):
     st = runner.Stats()
     label = case["tree"]
-    fac = dict(E.all_trees(2)).get(label)
+    fac = dict(E.all_trees(2) + EXTRA_TREES).get(label)
     if fac is None:
         fac = parsed_factory(json.loads(label))
     judge(st, label, fac, VAL.V + VAL.V_OBJ, 0)
